@@ -15,7 +15,8 @@ import shutil
 
 from vlib import worlds as W
 
-STRUCTS = ["K1", "K2", "K4", "P1", "Q1", "N1", "N2", "N3", "X1", "X2", "M1", "A1", "G1", "S1"]
+STRUCTS = ["K1", "K2", "K4", "P1", "Q1", "N1", "N2", "N3", "X1", "X2", "M1", "A1", "G1", "S1", "V1", "W1", "V2"]
+G5_EXONS = [[9001, 9300], [9801, 10000], [10601, 10800], [11401, 11700], [12501, 13000]]     # long last exon (500 bp)
 LEVELS = (1, 3, 12)
 
 
@@ -56,6 +57,16 @@ def structure_reads(struct, level, tag):
             reads.append(W.read_of(nm, "chr1", E([0, 1, 2, 3, 4, 5]), strand="-"))
         elif struct == "G1":
             reads.append(W.read_of(nm, "chr2", [W.slot(8000, 0), W.slot(8000, 1), W.slot(8000, 2)]))
+        elif struct == "V1":       # novel exon-skipping reads without polyA whose 3' ends stop at three positions inside the last exon
+            b = E([0, 1, 2, 4])
+            b[-1][1] -= (150, 110, 60)[k % 3]
+            reads.append(W.read_of(nm, "chr1", b, polya=False))
+        elif struct == "W1":       # full-length reads of T7 (gene G5 with a 500-bp last exon), no polyA
+            reads.append(W.read_of(nm, "chr1", G5_EXONS, polya=False))
+        elif struct == "V2":       # novel isoform of G5 skipping exon 3; reads stop 200-300 bp before the annotated end at 3 positions
+            b = [list(G5_EXONS[i]) for i in (0, 1, 3, 4)]
+            b[-1][1] = (12800, 12760, 12700)[k % 3]
+            reads.append(W.read_of(nm, "chr1", b, polya=False))
         elif struct == "S1":
             b = E([0, 1, 2, 4])
             if k % 2:
@@ -67,10 +78,11 @@ def structure_reads(struct, level, tag):
 def make_world(scenario, annotated=True):
     """scenario: tuple of (struct, level)"""
     from vlib import syn
-    w = {"chroms": {"chr1": 12000, "chr2": 11000}, "genes": [], "reads": [], "sites": []}
+    w = {"chroms": {"chr1": 14500, "chr2": 11000}, "genes": [], "reads": [], "sites": []}
     g1 = W.locus_gene("G1", "chr1", "+", 1000, {"T1": [0, 1, 2, 3, 4], "T2": [0, 2, 3, 4]})
     g2 = W.locus_gene("G2", "chr2", "-", 1000, {"T4": [0, 1, 2, 3]})
-    w["genes"] = [g1, g2]
+    g5 = {"id": "G5", "chr": "chr1", "strand": "+", "transcripts": [{"id": "T7", "exons": [list(e) for e in G5_EXONS]}]}
+    w["genes"] = [g1, g2, g5]
     syn.plant_for_transcripts(w)
     # sites for unannotated structures
     W.add_sites_for_blocks(w, "chr1", [slot(i) for i in (0, 1, 2, 4)], "+")
@@ -78,6 +90,7 @@ def make_world(scenario, annotated=True):
     W.add_sites_for_blocks(w, "chr1", [slot(1), [1941, 2060], slot(2)], "nc")
     W.add_sites_for_blocks(w, "chr1", [[501, 525], slot(0)], "+")
     W.add_sites_for_blocks(w, "chr2", [W.slot(8000, 0), W.slot(8000, 1), W.slot(8000, 2)], "+")
+    W.add_sites_for_blocks(w, "chr1", [G5_EXONS[i] for i in (0, 1, 3, 4)], "+")
     W.dedup_sites(w)
     reads = []
     for i, (st, lv) in enumerate(scenario):
